@@ -1,5 +1,6 @@
 """Per-property configuration and the generic check runner."""
 import collections
+import subprocess
 import json
 import os
 import re
@@ -66,12 +67,32 @@ def model_exes(cfg):
     return exes, log
 
 
-def run_models(exes, cases_path, work):
+def run_models(exes, cases_path, work, jobs=1):
+    """every case line through every unit's runner (first answer that is not `unknown-case` wins); with jobs > 1 the
+    case file is cut round-robin into slices that run concurrently (case lines are independent)"""
+    lines = read_lines(cases_path)
+    jobs = max(1, min(jobs, len(lines) // 200 or 1))
     outs = []
     for k, exe in enumerate(exes):
-        mp = os.path.join(work, "model%d.txt" % k)
-        sh("%s < %s > %s" % (exe, cases_path, mp), timeout=6000)
-        outs.append(read_lines(mp))
+        if jobs == 1:
+            mp = os.path.join(work, "model%d.txt" % k)
+            sh("%s < %s > %s" % (exe, cases_path, mp), timeout=12000)
+            outs.append(read_lines(mp))
+            continue
+        procs = []
+        for j in range(jobs):
+            sp = os.path.join(work, "slice%d_%d.txt" % (k, j))
+            with open(sp, "w") as f:
+                f.write("".join(l + "\n" for l in lines[j::jobs]))
+            op = os.path.join(work, "model%d_%d.txt" % (k, j))
+            procs.append((subprocess.Popen("%s < %s > %s" % (exe, sp, op), shell=True, env=vlib.ENV), op))
+        res = [None] * len(lines)
+        for j, (pr, op) in enumerate(procs):
+            pr.wait()
+            part = read_lines(op)
+            for i, o in zip(range(j, len(lines), jobs), part):
+                res[i] = o
+        outs.append([x if x is not None else "model-no-output" for x in res])
     model = []
     n = max(len(o) for o in outs)
     for i in range(n):
@@ -156,8 +177,10 @@ def run(pid, tier, seed):
     notes = []
     work = os.path.join(BUILD, "run", "%s-%s" % (pid, tier))
     os.makedirs(work, exist_ok=True)
+    import shutil
     for f in os.listdir(work):
-        os.remove(os.path.join(work, f))
+        q = os.path.join(work, f)
+        shutil.rmtree(q) if os.path.isdir(q) else os.remove(q)
 
     with vlib.Lock("build"):
         import gen
@@ -210,6 +233,18 @@ def run(pid, tier, seed):
     cases = read_lines(os.path.join(work, "cases.txt"))
     impl = read_lines(os.path.join(work, "impl.txt"))
     meta = read_lines(os.path.join(work, "meta.txt"))
+    # further generators of the same harness whose cases belong to this check (e.g. the end-to-end cases of C10)
+    for xp in cfg.get("extra_gen", []):
+        w2 = os.path.join(work, "extra-" + xp)
+        os.makedirs(w2, exist_ok=True)
+        rc, out = sh([h_exe, "gen", xp, gen_tier, str(seed), w2], timeout=6000)
+        if rc != 0:
+            sys.stdout.write(out[-3000:])
+            print("ERROR: harness failed (generator %s)" % xp)
+            return 2
+        cases += read_lines(os.path.join(w2, "cases.txt"))
+        impl += read_lines(os.path.join(w2, "impl.txt"))
+        meta += read_lines(os.path.join(w2, "meta.txt"))
     if corpus:
         rc, out = sh([h_exe, "obs"], stdin=("\n".join(corpus) + "\n").encode(), timeout=3000)
         cobs = out.split("\n")[:-1]
@@ -218,7 +253,7 @@ def run(pid, tier, seed):
         meta = ["corpus 1"] * len(corpus) + meta
     with open(os.path.join(work, "all_cases.txt"), "w") as f:
         f.write("\n".join(cases) + "\n")
-    model = run_models(m_exe, os.path.join(work, "all_cases.txt"), work)
+    model = run_models(m_exe, os.path.join(work, "all_cases.txt"), work, jobs=int(cfg.get("parallel_model", 1)))
     impl_dev = None
     if h_dev is not None:
         sh("%s obs < %s > %s" % (h_dev, os.path.join(work, "all_cases.txt"), os.path.join(work, "impl_dev.txt")), timeout=6000)
